@@ -60,7 +60,7 @@ func (e *Env) rv(v Val) Val {
 	}
 	t := e.g.loadType(st, v.Addr, v.GoT, false)
 	// memory is well typed: an integer cell holds a value of its type's range
-	if isInteger(v.GoT) && !strings.Contains(t, "q!") && e.g.lines != nil {
+	if isInteger(v.GoT) && !strings.Contains(t, "q!") && !strings.Contains(t, "dummy!") && e.g.lines != nil {
 		if rf := rangeFact(t, v.GoT); rf != "" {
 			if e.g.rangeSeen == nil {
 				e.g.rangeSeen = map[string]bool{}
@@ -71,7 +71,7 @@ func (e *Env) rv(v Val) Val {
 			}
 		}
 	}
-	if _, isSl := v.GoT.Underlying().(*types.Slice); isSl && !strings.Contains(t, "q!") && e.g.lines != nil {
+	if _, isSl := v.GoT.Underlying().(*types.Slice); isSl && !strings.Contains(t, "q!") && !strings.Contains(t, "dummy!") && e.g.lines != nil {
 		if e.g.rangeSeen == nil {
 			e.g.rangeSeen = map[string]bool{}
 		}
@@ -250,6 +250,19 @@ func (e *Env) tr(x *Expr) Val {
 		n := e.child()
 		var bs []string
 		for _, p := range x.Bound {
+			if strings.HasPrefix(p.Type, "*") {
+				// typed pointer variable: ranges over all locations, fields resolve through the named struct type
+				if e.pkg == nil {
+					fail("quantifier over %s: no package scope", p.Type)
+				}
+				tobj, ok := e.pkg.Scope().Lookup(p.Type[1:]).(*types.TypeName)
+				if !ok {
+					fail("quantifier: unknown type %s", p.Type)
+				}
+				n.vars[p.Name] = Val{T: "q!" + p.Name, Sort: "Loc", GoT: types.NewPointer(tobj.Type())}
+				bs = append(bs, "(q!"+p.Name+" Loc)")
+				continue
+			}
 			s := specSort(p.Type)
 			n.vars[p.Name] = Val{T: "q!" + p.Name, Sort: s}
 			bs = append(bs, "(q!"+p.Name+" "+s+")")
@@ -257,7 +270,13 @@ func (e *Env) tr(x *Expr) Val {
 		body := n.trBool(x.Args[0])
 		if len(x.Args) > 1 {
 			var ps []string
+			attrs := ""
 			for _, pe := range x.Args[1:] {
+				if pe.Op == "patsep" {
+					attrs += " :pattern (" + strings.Join(ps, " ") + ")"
+					ps = nil
+					continue
+				}
 				pv := n.tr(pe)
 				if seqLike(pv) {
 					ps = append(ps, n.asSeq(pv))
@@ -265,7 +284,8 @@ func (e *Env) tr(x *Expr) Val {
 					ps = append(ps, n.rv(pv).T)
 				}
 			}
-			body = "(! " + body + " :pattern (" + strings.Join(ps, " ") + "))"
+			attrs += " :pattern (" + strings.Join(ps, " ") + ")"
+			body = "(! " + body + attrs + ")"
 		}
 		return Val{T: "(" + x.Op + " (" + strings.Join(bs, " ") + ") " + body + ")", Sort: "Bool"}
 	case "let":
@@ -650,6 +670,12 @@ func (e *Env) call(x *Expr) Val {
 	case "prefixof":
 		// prefixof(p, s): sequence p is a prefix of sequence s (native seq.prefixof)
 		return Val{T: "(seq.prefixof " + e.asSeq(e.tr(x.Args[0])) + " " + e.asSeq(e.tr(x.Args[1])) + ")", Sort: "Bool"}
+	case "contains":
+		// contains(s, t): t occurs in s as a contiguous subsequence
+		return Val{T: "(seq.contains " + e.asSeq(e.tr(x.Args[0])) + " " + e.asSeq(e.tr(x.Args[1])) + ")", Sort: "Bool"}
+	case "indexof":
+		// indexof(s, t): offset of the first occurrence of t in s, -1 if none
+		return Val{T: "(seq.indexof " + e.asSeq(e.tr(x.Args[0])) + " " + e.asSeq(e.tr(x.Args[1])) + " 0)", Sort: "Int"}
 	case "suffixof":
 		return Val{T: "(seq.suffixof " + e.asSeq(e.tr(x.Args[0])) + " " + e.asSeq(e.tr(x.Args[1])) + ")", Sort: "Bool"}
 	case "min":
